@@ -2,7 +2,11 @@
    goahttp functions, the answers of the real mime.ParseMediaType on every string those
    functions could consult, and what it observed; the functions below run the model with
    that oracle and return the indexes of the cases where model and observation differ.
-   Strings are interned: a case refers to entry i of the run's string table. *)
+
+   Coq's front end costs ~0.1 ms per syntax node, so the case files are kept small:
+   strings are interned per shard (a case refers to entry i of the shard's string
+   table), a string is a list of tokens of the shard's vocabulary (generator fragments
+   and single bytes), and the small enumerations of a case are packed into one number. *)
 From Encoding Require Import Model.
 From Coq Require Import FMapPositive.
 
@@ -17,19 +21,34 @@ Definition mk_table (l : list bytes) : table := mk_table_from 1%positive l (Posi
 
 Definition str (t : table) (i : N) : option bytes := PositiveMap.find (N.succ_pos i) t.
 
+(* 999 is not a byte: a dangling token poisons the string, the case then disagrees *)
+Definition poison : bytes := [999].
+
+Definition mk_strings (voc : table) (l : list (list N)) : table :=
+  mk_table (map (fun toks => flat_map (fun i => match str voc i with Some b => b | None => poison end) toks) l).
+
 Definition key_is (t : table) (s : bytes) (i : N) : bool :=
   match str t i with Some k => beq k s | None => false end.
 
-(* the observed parser as a function: answers logged for this case, None elsewhere *)
-Definition pmt_of (t : table) (ol : list (N * option N)) (s : bytes) : option bytes :=
-  match find (fun e => key_is t s (fst e)) ol with
-  | Some (_, Some j) => str t j
-  | _ => None
+(* flattened association list: [s1; r1; s2; r2; ...] *)
+Fixpoint pairs (l : list N) : list (N * N) :=
+  match l with
+  | a :: b :: r => (a, b) :: pairs r
+  | _ => []
   end.
 
+(* the observed parser as a function: answers logged for this case (r = 0: error,
+   r = m+1: media type is string m), None elsewhere *)
+Definition pmt_of (t : table) (ol : list (N * N)) (s : bytes) : option bytes :=
+  match find (fun e => key_is t s (fst e)) ol with
+  | Some (_, r) => if N.eqb r 0 then None else str t (N.pred r)
+  | None => None
+  end.
+
+(* media type returned together with an error *)
 Definition errmt_of (t : table) (el : list (N * N)) (s : bytes) : bytes :=
   match find (fun e => key_is t s (fst e)) el with
-  | Some (_, j) => match str t j with Some m => m | None => [] end
+  | Some (_, j) => match str t j with Some m => m | None => poison end
   | None => []
   end.
 
@@ -60,68 +79,71 @@ Definition codec_of (rj rx rg : bool) (k : kind) (v : value) : option bytes :=
   | KText => None
   end.
 
-(* one response case *)
-Inductive rcase :=
-  RC (idx : N) (accept ct preset : N) (vk : vkind) (rj rx rg : bool)
-     (ol : list (N * option N)) (el : list (N * N))
-     (o_enc : option kind)      (* dynamic type of the Encoder returned, None = nil *)
-     (o_hdr : N)                (* Content-Type header after ResponseEncoder *)
-     (o_dec : kind)             (* dynamic type of goahttp.ResponseDecoder on that header *)
-     (o_encerr : bool)          (* Encode returned an error *)
-     (o_recovered : bool).      (* Decode ok and reflect.DeepEqual to the value *)
+(* mixed-radix unpacking *)
+Definition take (base x : N) : N * N := (N.modulo x base, N.div x base).
+Definition kind_of_code (n : N) : kind :=
+  if N.eqb n 0 then KJson else if N.eqb n 1 then KXml else if N.eqb n 2 then KGob else KText.
+Definition vkind_of_code (n : N) : vkind :=
+  if N.eqb n 0 then VkStruct else if N.eqb n 1 then VkString else if N.eqb n 2 then VkStrPtr else VkBytes.
+Definition nz (n : N) : bool := negb (N.eqb n 0).
 
-Definition rcase_ok (t : table) (c : rcase) : bool :=
+Inductive case :=
+  (* response: string indexes of accept / designed type / pre-set header, packed
+     (value kind, codec refusals json xml gob, observed encoder [0 = nil, k+1], observed
+     decoder, Encode error, recovered), parser answers, error media types, header after *)
+| RC (idx accept ct preset code : N) (ol el : list N) (o_hdr : N)
+  (* request: Content-Type header, parser answers, packed (observed decoder [0 =
+     unsupported, k+1], decoded), media type named by the error message, status *)
+| QC (idx hdr : N) (ol : list N) (code o_ct o_status : N)
+  (* RequestEncoder: header before, header after *)
+| EC (idx preset o_hdr : N).
+
+Definition case_idx (c : case) : N :=
+  match c with RC i _ _ _ _ _ _ _ => i | QC i _ _ _ _ _ => i | EC i _ _ => i end.
+
+Definition case_ok (t : table) (c : case) : bool :=
   match c with
-  | RC _ a c p vk rj rx rg ol el oenc ohdr odec oerr orec =>
+  | RC _ a c p code ol el ohdr =>
+    let '(vk, x) := take 4 code in
+    let '(rj, x) := take 2 x in
+    let '(rx, x) := take 2 x in
+    let '(rg, x) := take 2 x in
+    let '(oenc, x) := take 5 x in
+    let '(odec, x) := take 4 x in
+    let '(oerr, orec) := take 2 x in
+    let oenc := if N.eqb oenc 0 then None else Some (kind_of_code (N.pred oenc)) in
     match str t a, str t c, str t p, str t ohdr with
     | Some a, Some c, Some p, Some oh =>
-      let pm := pmt_of t ol in
-      let '(mk, mh) := response_encoder pm (errmt_of t el) a c p in
+      let pm := pmt_of t (pairs ol) in
+      let '(mk, mh) := response_encoder pm (errmt_of t (pairs el)) a c p in
       let dk := response_decoder pm mh in
-      opt_kind_eqb mk oenc && beq mh oh && kind_eqb dk odec &&
+      opt_kind_eqb mk oenc && beq mh oh && kind_eqb dk (kind_of_code odec) &&
       match mk with
       | None => true
       | Some k =>
-        let enc_err := match encode (codec_of rj rx rg) k (value_of vk) with None => true | Some _ => false end in
-        Bool.eqb enc_err oerr && (if negb enc_err && kind_eqb k dk then orec else true)
+        let enc_err := match encode (codec_of (nz rj) (nz rx) (nz rg)) k (value_of (vkind_of_code vk)) with
+                       | None => true | Some _ => false end in
+        Bool.eqb enc_err (nz oerr) && (if negb enc_err && kind_eqb k dk then nz orec else true)
       end
     | _, _, _, _ => false
     end
-  end.
-
-Definition rcase_idx (c : rcase) : N := match c with RC i _ _ _ _ _ _ _ _ _ _ _ _ _ _ => i end.
-
-Definition resp_mismatches (t : table) (cs : list rcase) : list N :=
-  flat_map (fun c => if rcase_ok t c then [] else [rcase_idx c]) cs.
-
-(* one request case: Content-Type header of the request; observed decoder (None = the
-   unsupported decoder), the media type its error message names, the status
-   NewErrorResponse gives that error, and whether Decode succeeded *)
-Inductive qcase :=
-  QC (idx : N) (hdr : N) (ol : list (N * option N))
-     (o_dec : option kind) (o_ct : N) (o_status : N) (o_decoded : bool).
-
-Definition qcase_ok (t : table) (c : qcase) : bool :=
-  match c with
-  | QC _ h ol odec oct ost odecoded =>
+  | QC _ h ol code oct ost =>
+    let '(odec, odecoded) := take 5 code in
     match str t h, str t oct with
     | Some h, Some oct =>
-      match request_decoder (pmt_of t ol) h with
-      | RDec k => opt_kind_eqb (Some k) odec
+      match request_decoder (pmt_of t (pairs ol)) h with
+      | RDec k => N.eqb odec (match k with KJson => 1 | KXml => 2 | KGob => 3 | KText => 4 end)
       | RUnsupported ct =>
-        opt_kind_eqb None odec && beq ct oct && N.eqb (http_status (unsupported_error ct)) ost && negb odecoded
+        N.eqb odec 0 && beq ct oct && N.eqb (http_status (unsupported_error ct)) ost && negb (nz odecoded)
       end
+    | _, _ => false
+    end
+  | EC _ p o =>
+    match str t p, str t o with
+    | Some p, Some o => beq (request_encoder_header p) o
     | _, _ => false
     end
   end.
 
-Definition req_mismatches (t : table) (cs : list qcase) : list N :=
-  flat_map (fun c => if qcase_ok t c then [] else [match c with QC i _ _ _ _ _ _ => i end]) cs.
-
-(* RequestEncoder: header before, header after *)
-Definition renc_mismatches (t : table) (cs : list (N * N * N)) : list N :=
-  flat_map (fun c => match c with (i, p, o) =>
-     match str t p, str t o with
-     | Some p, Some o => if beq (request_encoder_header p) o then [] else [i]
-     | _, _ => [i]
-     end end) cs.
+Definition mismatches (t : table) (cs : list case) : list N :=
+  flat_map (fun c => if case_ok t c then [] else [case_idx c]) cs.
